@@ -580,14 +580,31 @@ Proof.
     + destruct (e_out (sA s)); [apply pres_set_out|]. pt; [apply pres_feed|apply pres_set_out].
 Qed.
 
+Lemma pres_disp_burst : forall fuel e e', disp_burst fuel e = Some e' -> pres e e'.
+Proof.
+  induction fuel as [|fuel IH]; intros e e' H; cbn [disp_burst] in H; [discriminate|].
+  fold (na_of e) in H. fold (nc_of e) in H.
+  destruct (dstep (e_cfg e) (na_of e) (nc_of e) (e_d e)) as [|d|d k i f|d code] eqn:E.
+  - discriminate.
+  - pt; [apply pres_set_d_progress; exact E|apply IH; exact H].
+  - pt; [apply pres_deliver; exact E|apply IH; exact H].
+  - inversion H; subst e'. apply pres_set_d_failed. exact E.
+Qed.
+
+Lemma pres_raw_round : forall e, pres e (fst (raw_round e)).
+Proof.
+  intros e. unfold raw_round. destruct (e_fail e); [apply pres_ep_round|].
+  destruct (disp_burst (burst_fuel e) e) as [e'|] eqn:E; [cbn [fst]; eapply pres_disp_burst; exact E|apply pres_ep_round].
+Qed.
+
 Lemma spres_settle_round : forall s, spres s (fst (settle_round s)).
 Proof.
   intros s. unfold settle_round. eapply spres_trans; [apply spres_transfer|].
   set (s1 := transfer s).
-  pose proof (pres_ep_round (sA s1)) as PA. pose proof (pres_ep_round (sB s1)) as PB.
-  destruct (ep_round (sB s1)) as [b pb]. destruct (s_raw s1).
-  - cbn [fst]. split; cbn [sA sB]; [apply pres_refl|exact PB].
-  - destruct (ep_round (sA s1)) as [a pa]. cbn [fst]. split; cbn [sA sB]; assumption.
+  pose proof (pres_ep_round (sA s1)) as PA. pose proof (pres_ep_round (sB s1)) as PB. pose proof (pres_raw_round (sB s1)) as PR.
+  destruct (s_raw s1).
+  - destruct (raw_round (sB s1)) as [b pb]. cbn [fst]. split; cbn [sA sB]; [apply pres_refl|exact PR].
+  - destruct (ep_round (sB s1)) as [b pb]. destruct (ep_round (sA s1)) as [a pa]. cbn [fst]. split; cbn [sA sB]; assumption.
 Qed.
 
 Lemma spres_iter_until : forall p s, spres s (fst (iter_until p s)).
